@@ -253,7 +253,7 @@ def cw4(P, C):
                 b, j = pos[s]
                 st = core.state_before(f, IN, transfer, b, j)
                 C.ob("CW-4", f.name, "store-new", bool(st), f.loc(s),
-                     "fresh table stored into table->data while the previous handle may still be live (leak)" if not st
+                     "fresh table stored into table->data while the previous handle is not known to be null or released through splinetable_free (the old table leaks, or the handle dangles if constructing the replacement fails)" if not st
                      else "old handle known null or freed on every path")
             else:
                 isnull = f.nodes[rhs]["k"] in ("GNUNullExpr", "CXXNullPtrLiteralExpr") or f.nodes[rhs].get("cv") == 0
